@@ -18,6 +18,16 @@ func main() {
 		fmt.Fprintln(os.Stderr, "usage: vcheck <property-id> <quick|thorough> | vcheck replay <file>")
 		os.Exit(2)
 	}
+	if os.Args[1] == "child" && len(os.Args) >= 4 {
+		// child process of a supervised exploration (inputs on stdin, one result line per input)
+		switch os.Args[2] {
+		case "C14":
+			props.C14Child(os.Args[3] == "thorough")
+		case "C03":
+			props.C03Child(os.Args[3:])
+		}
+		return
+	}
 	if os.Args[1] == "replay" {
 		c, err := report.ReadCase(os.Args[2])
 		if err != nil {
